@@ -226,7 +226,70 @@ def run_c05(tier):
                      exhaustive=True)
 
 
-RUN = {'C01': run_c01, 'C02': run_c02, 'C03': run_c03, 'C04': run_c04, 'C05': run_c05}
+# ---------------------------------------------------------------- C16
+def run_c16(tier):
+    ck = vlib.Check('C16', tier, 'model_checking')
+    seed = vlib.seed()
+    c = {'Keys': {'x1', 'x2'}, 'Msgs': {'pop1', 'pop2', 'sig1', 'sig2'}, 'MaxFrag': 3 if tier == 'quick' else 4}
+    res = vlib.tlc(SPEC, 'PoP', vlib.cfg(c, invariants=['KeysNeverCollide', 'Sound', 'PopIsNoSig', 'SigIsNoPop', 'Emit', 'EmitTags']), name='pop', timeout=3000)
+    if not res.ok:
+        raise vlib.Undecided('PoP: %s %s' % (res.violated, res.error))
+    ck.add_states(res, 'PoP soundness over (key, candidate) classes; key-string separation for every tag of <= %d fragments' % c['MaxFrag'])
+    cases = tlc_cases(res.out)
+    tagcase = [cs for cs in cases if 'tags' in cs][0]
+    ck.cov['tags_checked_by_tlc'] = len(tagcase['tags'])
+    reps = 4 if tier == 'quick' else 40
+    jobs = []
+    for r in range(reps):
+        for i, cs in enumerate(cases):
+            if 'tags' in cs:
+                if r == 0:
+                    tags = cs['tags'] if tier == 'thorough' else cs['tags'][seed % 3::3]
+                    jobs.append({'kind': 'pop', 'seed': seed, 'case': {'tags': tags}})
+                continue
+            jobs.append({'kind': 'pop', 'seed': seed * 1000003 + i + 7919 * r, 'case': cs})
+    execute(ck, 'C16', jobs)
+    for cs in cases:
+        if 'tags' not in cs:
+            ck.case(vlib.digest([cs['key'], cs['cand']]), cs['cand'] != 'pop-own' or cs['key'] == 'zero')
+    for t in tagcase['tags']:
+        ck.case('tag:' + t, True)
+    ck.cov['traces_validated_against_impl'] = len(jobs)
+    ck.sample([cs for cs in cases if 'tags' not in cs][0])
+    ck.sample({'tags': tagcase['tags'][:8]})
+    ck.assumptions = ['H_pop(pk) is obtained from the library under sk = 1 with a PoP hasher rebuilt in the harness from the documented suite string',
+                      'tags: every concatenation of <= %d fragments of the suite strings, plus long / binary tags' % c['MaxFrag']]
+    return ck.finish(rule='cases = (verifying key, candidate class) and crafted application tags, enumerated by TLC', exhaustive=True)
+
+
+# ---------------------------------------------------------------- C17
+def run_c17(tier):
+    ck = vlib.Check('C17', tier, 'model_checking')
+    seed = vlib.seed()
+    c = dict(ALG, DropSecondMembership=False)
+    res = vlib.tlc(SPEC, 'SPoCK', vlib.cfg(c, invariants=['DecidesDefinition', 'SwapSymmetric', 'HonestVerifies', 'Emit']), name='spock')
+    if not res.ok:
+        raise vlib.Undecided('SPoCK: %s %s' % (res.violated, res.error))
+    ck.add_states(res, 'SPOCKVerify over (key form, proof class)^2')
+    neg = vlib.tlc(SPEC, 'SPoCK', vlib.cfg(dict(c, DropSecondMembership=True), invariants=['DecidesDefinition']), name='spockneg')
+    if 'DecidesDefinition' not in neg.violated:
+        raise vlib.Undecided('negative control (second membership check dropped) not detected')
+    ck.cov['negative_controls'] = 1
+    cases = tlc_cases(res.out)
+    reps = 1 if tier == 'quick' else 8
+    jobs = [{'kind': 'spock', 'seed': seed * 1000003 + i + 7919 * r, 'case': cs} for r in range(reps) for i, cs in enumerate(cases)]
+    execute(ck, 'C17', jobs)
+    for cs in cases:
+        ck.case(vlib.digest([cs['k1'], cs['p1'], cs['k2'], cs['p2']]), not (cs['p1'] == 'honest' and cs['p2'] == 'honest'))
+    ck.cov['traces_validated_against_impl'] = len(jobs)
+    ck.cov['cases_expected_true'] = sum(1 for cs in cases if cs['expect'])
+    ck.sample(cases[0])
+    ck.sample([cs for cs in cases if cs['expect'] and cs['p1'] != 'honest'][0])
+    ck.assumptions = ['H(m) from the library under sk = 1; proofs built with harness/ref', 'both proofs of a case are hashed with one hasher (one tag)']
+    return ck.finish(rule='cases = (key form, proof class) for both pairs, enumerated by TLC; each also run with the pairs swapped', exhaustive=True)
+
+
+RUN = {'C01': run_c01, 'C02': run_c02, 'C03': run_c03, 'C04': run_c04, 'C05': run_c05, 'C16': run_c16, 'C17': run_c17}
 
 
 def run(prop, tier):
